@@ -50,7 +50,10 @@ TOOLS = [("ovniemu", "ovniemu", ["-l"]),
          ("ovnidump", "ovnidump", []),
          ("ovnitop", "ovnitop", []),
          ("ovnisort-c", "ovnisort", ["-c"]),
-         ("ovnisort", "ovnisort", [])]
+         ("ovnisort", "ovnisort", []),
+         # the emulator with debug output: every event goes through the dbg() formatting as well
+         # (run on every third input)
+         ("ovniemu-d", "ovniemu", ["-d"])]
 T_SHORT = 2.0          # first pass
 T_LONG = 10.0          # confirmation of a hang
 INVS = ["CursorInBounds", "Progress", "HeaderReadInBounds", "ReadsWithinEvent",
@@ -1100,7 +1103,9 @@ def main(pid, tier):
     ck.phase("generate")
 
     items = [(ii, ti) for ii in range(len(uniq)) for ti in range(len(TOOLS))
-             if uniq[ii].tools is None or TOOLS[ti][0] in uniq[ii].tools]
+             if (uniq[ii].tools is None or TOOLS[ti][0] in uniq[ii].tools
+                 or (TOOLS[ti][0] == "ovniemu-d" and "ovniemu" in uniq[ii].tools))
+             and (TOOLS[ti][0] != "ovniemu-d" or ii % 3 == 0)]
     core.log("[C19] %d inputs (%d generated), %d tool runs" % (len(uniq), len(inputs), len(items)))
     rng2 = random.Random(core.seed() + 1)
     rng2.shuffle(items)            # spread the slow (hanging) runs over the workers
